@@ -82,6 +82,7 @@ def run(chk):
     ev = cr.ev(q, opaque={"T", "new_uc", "cart_asym_pos"})
     chk.saw(CR, q)
     Ts = {}
+    unselected = []
     for e in ev.events:
         if e.kind == "assign" and e.name == "T":
             m = const_matrix(e.value)
@@ -91,7 +92,21 @@ def run(chk):
                 ca = c.as_atom()
                 if ca and ca[0] in ("eq", "ne") and "'R'" in c.key() and "space_group.choice" in c.key():
                     when_R = (ca[0] == "eq") == pol
+            if when_R is None and e.guards:
+                unselected.append((e, m))
+                continue
             Ts["R2H" if when_R else "H2R"] = m
+    if len(unselected) == 2 and not Ts:
+        # two matrices, chosen by something other than the space group's current setting: the direction of the change is decided by the setting
+        # the crystal IS in (the same attribute the early return and the relabelling use), not by a property of the cell metric
+        chk.ob("R13.1", CR, q, "the basis-change matrix is selected by the space group's current setting (space_group.choice == 'R' -> R->H, else H->R)",
+               False, node=unselected[0][0].node, fingerprint="selected-by-setting", expected="if self.space_group.choice == 'R': T = T(R->H) else: T = T(H->R)",
+               found=[str(c)[:80] for c, _ in unselected[0][0].guards][-1:])
+        for e, m in unselected:
+            Ts["R2H" if abs(mat_det(m)) > 1 else "H2R"] = m
+    elif set(Ts) == {"R2H", "H2R"} and not unselected:
+        chk.ob("R13.1", CR, q, "the basis-change matrix is selected by the space group's current setting (space_group.choice == 'R' -> R->H, else H->R)",
+               True, fingerprint="selected-by-setting")
     chk.need(set(Ts) == {"R2H", "H2R"}, f"{q}: the two basis-change matrices (one per current setting) were not found")
     if chk.want("R13.1"):
         prod = mat_mul(Ts["R2H"], Ts["H2R"])
